@@ -1825,3 +1825,44 @@ Proof.
               (with_loc (f_init f) sc) (decode dbg (f_dparams f) (f_fde_off f) (f_fde f))) as [rows [o sf]].
   exact Hcl2.
 Qed.
+
+(* ---------- K: reuse of a context (C20, unwind-context clause) ---------- *)
+
+Theorem reset_is_fresh_thm c cx : reset c cx = new_ctx c.
+Proof. reflexivity. Qed.
+
+Theorem initialize_history_free_thm dbg c f cx cx' : initialize dbg c f cx = initialize dbg c f cx'.
+Proof. unfold initialize. rewrite (reset_is_fresh_thm c cx), (reset_is_fresh_thm c cx'). reflexivity. Qed.
+
+Lemma table_new_indep dbg c f cx cx' : table_new dbg c f cx = table_new dbg c f cx'.
+Proof. unfold table_new. rewrite (initialize_history_free_thm dbg c f cx cx'). reflexivity. Qed.
+
+Lemma use_ctx_indep dbg c u cx cx' : fst (use_ctx dbg c u cx) = fst (use_ctx dbg c u cx').
+Proof.
+  unfold use_ctx. destruct u as [f [lim|a]]; cbn [fst snd].
+  - unfold fde_rows_lim. destruct (negb (valid_asize (f_asize f))); [reflexivity|].
+    rewrite (table_new_indep dbg c f cx cx').
+    destruct (table_new dbg c f cx') as [t|e| |]; reflexivity.
+  - unfold unwind_info_for_address. destruct (negb (valid_asize (f_asize f))); [reflexivity|].
+    rewrite (table_new_indep dbg c f cx cx').
+    destruct (table_new dbg c f cx') as [t|e| |]; reflexivity.
+Qed.
+
+(* whatever happened to the context before — successful tables, failures in the CIE's initial
+   instructions, mid-FDE, by StackFull / TooManyRegisterRules, abandoned tables — every use gives
+   what it gives on any other context, in particular a fresh one *)
+Theorem history_independent_thm dbg c : forall (h : list use) (cx cx0 : ctx),
+  run_history dbg c h cx = map (fun u => fst (use_ctx dbg c u cx0)) h.
+Proof.
+  induction h as [|u h IH]; intros cx cx0; [reflexivity|].
+  cbn [run_history map].
+  destruct (use_ctx dbg c u cx) as [res cx'] eqn:E.
+  rewrite (IH cx' cx0). f_equal.
+  pose proof (use_ctx_indep dbg c u cx cx0) as H. rewrite E in H. exact H.
+Qed.
+
+Theorem history_fresh_thm dbg c (h : list use) (cx cx0 : ctx) :
+  new_ctx c = Ok cx0 -> run_history dbg c h cx = run_fresh dbg c h.
+Proof.
+  intros H. rewrite (history_independent_thm dbg c h cx cx0). unfold run_fresh. rewrite H. reflexivity.
+Qed.
